@@ -54,7 +54,9 @@ def run_scan(res, vworker, jobs, pvs, props, extra_args=None, per_shard=None, ti
             openc = vlib.journal_open_case(jp)
             tail = ""
             try:
-                tail = open(logp, errors="replace").read()[-6000:]
+                full = open(logp, errors="replace").read()
+                # a stack-overflow dump is huge: the interesting frames are at its top
+                tail = full if len(full) <= 12000 else full[:8000] + "\n...\n" + full[-4000:]
             except OSError:
                 pass
             if rc == 3 and "HARNESS:" in tail:
@@ -81,7 +83,7 @@ def run_scan(res, vworker, jobs, pvs, props, extra_args=None, per_shard=None, ti
             if dth["kind"] == "harness":
                 vlib.harness_fail("scan worker %s: %s" % (dth["label"], dth["tail"]))
             frame = ""
-            m = re.findall(r"\n(github\.com/go-critic/go-critic/[^\s(]+)\(", dth["tail"])
+            m = re.findall(r"\n(github\.com/go-critic/go-critic/[\w/]+\.(?:\(\*?\w+\)\.)?[\w.]+)\(", dth["tail"])
             if m:
                 frame = m[0]
             key = "%s:%s" % (dth["kind"], frame or "unknown")
@@ -110,7 +112,7 @@ def manifest_classes(man):
     return n, len(hashes), cls
 
 
-def run_sharded(res, vworker, sub, jobs, props, extra=None, nshards=None, timeout=1500, per_task_extra=None, on_record=None, mix=False):
+def run_sharded(res, vworker, sub, jobs, props, extra=None, nshards=None, timeout=1500, per_task_extra=None, on_record=None, mix=False, cwd=None):
     """Run `vworker <sub>` over sharded patterns. jobs as in run_scan. A worker death here is a
     harness problem or C01's business (panics are recovered in-process), so it is reported
     as inconclusive, not as a violation of `props`.
@@ -138,7 +140,7 @@ def run_sharded(res, vworker, sub, jobs, props, extra=None, nshards=None, timeou
         cmd = [vworker, sub, "-dir", d, "-patterns", pf, "-out", outp] + (extra or [])
         if per_task_extra:
             cmd += per_task_extra(idx, label, work)
-        rc = vlib.run_worker(cmd, os.path.join(work, label + ".log"), timeout)
+        rc = vlib.run_worker(cmd, os.path.join(work, label + ".log"), timeout, cwd=cwd)
         return rc, outp, label
 
     finished = 0
